@@ -9,6 +9,7 @@ import (
 	"testing"
 
 	"github.com/janelia-flyem/dvid/datastore"
+	"github.com/janelia-flyem/dvid/dvid"
 	"pgregory.net/rapid"
 
 	"verif/drive"
@@ -53,6 +54,7 @@ func newFixture(spec *typeSpec) (*fixture, error) {
 	if err := drive.NewInstance(root, "keyvalue", "ukv", map[string]string{"versioned": "false"}); err != nil {
 		return nil, err
 	}
+	trackRepo(root) // (nothing has been written yet)
 	if err := drive.Commit(root); err != nil {
 		return nil, err
 	}
@@ -83,7 +85,7 @@ func newFixture(spec *typeSpec) (*fixture, error) {
 	if err := fx.newTwin(); err != nil {
 		return nil, err
 	}
-	drive.Settle(root)
+	settle()
 	// harness self-check: the twin really is a twin (same answers from every read of the snapshot list)
 	ov, err := observe(root, fx.V, fx.reads)
 	if err != nil {
@@ -126,7 +128,7 @@ func (fx *fixture) newTwin() error {
 	if err := fx.spec.content(w); err != nil {
 		return fmt.Errorf("content at twin: %v", err)
 	}
-	drive.Settle(fx.root)
+	settle()
 	fx.wDirty = false
 	fx.wObs, err = observe(fx.root, w, fx.reads)
 	return err
@@ -134,8 +136,14 @@ func (fx *fixture) newTwin() error {
 
 func sigType(typename string) string { return typeDir(typename) }
 
-// build renders the request against node uuid.  side distinguishes the names that must be unique per send.
+// build renders the request against node uuid.  side distinguishes the names that must be unique per send;
+// newInst is the name of the instance a repo/<uuid>/instance request asks for.
 func (fx *fixture) build(q sweepReq, uuid, side string) (method, url string, body []byte) {
+	method, url, body, _ = fx.buildNamed(q, uuid, side)
+	return
+}
+
+func (fx *fixture) buildNamed(q sweepReq, uuid, side string) (method, url string, body []byte, newInst string) {
 	junkTail := junkTails[pick(q.Junk, len(junkTails))]
 	junkBody := junkBodies[pick(q.Junk/len(junkTails), len(junkBodies))]
 	fx.uniq++
@@ -152,7 +160,7 @@ func (fx *fixture) build(q sweepReq, uuid, side string) (method, url string, bod
 		if f := valid[q.KW]; f != nil && q.Valid {
 			tail, body = f(q)
 		}
-		return q.Method, "node/" + uuid + "/" + inst + "/" + q.KW + tail, body
+		return q.Method, "node/" + uuid + "/" + inst + "/" + q.KW + tail, body, ""
 	case "node":
 		body := junkBody
 		if q.Valid {
@@ -171,7 +179,7 @@ func (fx *fixture) build(q sweepReq, uuid, side string) (method, url string, bod
 				body = []byte(fmt.Sprintf(`{"tag":"t-%s","note":"tagged"}`, uniq))
 			}
 		}
-		return q.Method, "node/" + uuid + "/" + q.KW, body
+		return q.Method, "node/" + uuid + "/" + q.KW, body, ""
 	case "newinst":
 		tn := "keyvalue"
 		if q.Valid {
@@ -181,9 +189,9 @@ func (fx *fixture) build(q sweepReq, uuid, side string) (method, url string, bod
 		if tn == "tarsupervoxels" {
 			cfg["Extension"] = "dat"
 		}
-		return q.Method, "repo/" + uuid + "/instance", jsonBody(cfg)
+		return q.Method, "repo/" + uuid + "/instance", jsonBody(cfg), "n" + uniq
 	}
-	return q.Method, "node/" + uuid + "/" + q.KW, nil
+	return q.Method, "node/" + uuid + "/" + q.KW, nil, ""
 }
 
 func (q sweepReq) sigBase(typename string) string {
@@ -237,26 +245,19 @@ func (fx *fixture) sendChecked(q sweepReq, method, url string, body []byte) (dri
 
 // probeTwin sends the request to the open twin and reports whether it is a real mutation.
 func (fx *fixture) probeTwin(q sweepReq) (string, error) {
-	_, names0, err := repoInfo(fx.root)
-	if err != nil {
-		return "", err
-	}
-	m, u, b := fx.build(q, fx.W, "w")
+	m, u, b, newInst := fx.buildNamed(q, fx.W, "w")
 	if _, err := fx.sendChecked(q, m, u, b); err != nil {
 		return "", err
 	}
-	drive.Settle(fx.root)
+	settle()
 	after, err := observe(fx.root, fx.W, fx.reads)
 	if err != nil {
 		return "", err
 	}
 	kind, _ := diffObs(fx.wObs, after)
-	_, names1, err := repoInfo(fx.root)
-	if err != nil {
-		return "", err
-	}
-	if kind == "" && !sameNames(names0, names1) {
+	if kind == "" && newInst != "" && instanceExists(fx.root, newInst) {
 		kind = "instances"
+		trackInstance(newInst)
 	}
 	if kind != "" {
 		fx.wDirty = true
@@ -276,32 +277,24 @@ func (fx *fixture) gated(q sweepReq, uuid, side, node string, ro bool) (drive.Re
 	if err != nil {
 		return drive.Resp{}, err
 	}
-	_, names0, err := repoInfo(fx.root)
-	if err != nil {
-		return drive.Resp{}, err
-	}
-	m, u, b := fx.build(q, uuid, side)
+	m, u, b, newInst := fx.buildNamed(q, uuid, side)
 	var r drive.Resp
 	withModes(ro, false, func() { r, err = fx.sendChecked(q, m, u, b) })
 	if err != nil {
 		return r, err
 	}
-	err = drive.WithDeepRetry(fx.root, func() error {
+	shown := strings.Replace(u, uuid, "<"+node+">", 1)
+	err = withDeepRetry(func() error {
 		after, err := observe(fx.root, uuid, fx.reads)
 		if err != nil {
 			return err
 		}
 		if kind, msg := diffObs(before, after); kind != "" {
 			return stats.Violf(gateSig(base, q.Method, cond),
-				"%s %s (%d body bytes) answered %s; %s state of the %s node changed: %s", m, strings.Replace(u, uuid, "<"+node+">", 1), len(b), r, kind, node, msg)
+				"%s %s (%d body bytes) answered %s; %s state of the %s node changed: %s", m, shown, len(b), r, kind, node, msg)
 		}
-		_, names1, err := repoInfo(fx.root)
-		if err != nil {
-			return err
-		}
-		if !sameNames(names0, names1) {
-			return stats.Violf(gateSig(base, q.Method, cond),
-				"%s %s answered %s; instance list of the repo changed through the %s node: %v -> %v", m, strings.Replace(u, uuid, "<"+node+">", 1), r, node, names0, names1)
+		if newInst != "" && instanceExists(fx.root, newInst) {
+			return stats.Violf(gateSig(base, q.Method, cond), "%s %s answered %s; data instance %q was created through the %s node", m, shown, r, newInst, node)
 		}
 		return nil
 	})
@@ -329,17 +322,18 @@ func runSweep(c sweepCase) (cls map[string]int, err error) {
 		for _, q := range c.Reqs {
 			m, u, b := fx.build(q, fx.V, "f")
 			var perr error
-			withModes(false, true, func() { _, perr = fx.sendChecked(q, m, u, b) })
+			var fr drive.Resp
+			withModes(false, true, func() { fr, perr = fx.sendChecked(q, m, u, b) })
 			if perr != nil {
 				return cls, perr
 			}
-			drive.Settle(fx.root)
+			if q.Target == "node" && q.KW == "newversion" && fr.OK() {
+				fx.vKids++
+			}
+			settle()
 			cls["full-write/requests"]++
 		}
 		// V may have changed: the gate must be back now, checked below on the state V has now
-		if nodes, _, err := repoInfo(fx.root); err == nil {
-			fx.vKids = nodes[fx.V].Children // unknown which branch: newversion success is not asserted below when > 0
-		}
 	}
 	ensureTwin := func() error {
 		if !fx.wDirty {
@@ -402,11 +396,6 @@ func runSweep(c sweepCase) (cls map[string]int, err error) {
 			}
 			continue
 		}
-		nodes, _, err := repoInfo(fx.root)
-		if err != nil {
-			return cls, err
-		}
-		kids0 := nodes[fx.V].Children
 		r, err := fx.gated(q, fx.V, "v", "committed", false)
 		if err != nil {
 			return cls, err
@@ -418,17 +407,18 @@ func runSweep(c sweepCase) (cls map[string]int, err error) {
 			cls["nt/gate-back-after-full-write"]++
 		}
 		if q.childCreating() {
-			nodes, _, err := repoInfo(fx.root)
-			if err != nil {
-				return cls, err
+			var made struct{ Child string }
+			grew := false
+			if r.OK() && json.Unmarshal(r.Body, &made) == nil && made.Child != "" {
+				_, verr := datastore.VersionFromUUID(dvid.UUID(made.Child))
+				grew = verr == nil
 			}
-			grew := nodes[fx.V].Children == kids0+1
 			must := q.KW != "newversion" || fx.vKids == 0
 			if q.KW == "newversion" && r.OK() {
 				fx.vKids++
 			}
 			if must && (!r.OK() || !grew) {
-				return cls, stats.Violf("C02/node/"+q.KW+"/child-creation-refused-on-committed-node", "POST %s on committed node answered %s; children %d -> %d", q.KW, r, kids0, nodes[fx.V].Children)
+				return cls, stats.Violf("C02/node/"+q.KW+"/child-creation-refused-on-committed-node", "POST %s with a fresh name on the committed node answered %s (child version exists: %v)", q.KW, r, grew)
 			}
 			if r.OK() && grew {
 				cls["nt/child-created/"+q.KW]++
@@ -568,11 +558,18 @@ func genSweep(t *rapid.T) sweepCase {
 				q.Method = "DELETE" // the documented verb of this endpoint
 			}
 			// known findings: steer around the (endpoint, method class, gate) combination by construction
+			skip := false
 			for _, cond := range []string{"committed", "read-only"} {
 				if sig := gateSig(q.sigBase(c.Type), q.Method, cond); (cond == "committed" || c.Mode == "read-only") && stats.IsKnown(sig) {
 					stats.Excluded(sig)
+					if q.Method == "POST" {
+						skip = true // the documented verb itself is the listed finding: leave the endpoint out
+					}
 					q.Method = "POST"
 				}
+			}
+			if skip {
+				continue
 			}
 			reqs = append(reqs, q)
 		}
